@@ -306,6 +306,10 @@ int ares_init_options(ares_channel_t           **channelptr,
     goto done;
   }
 
+  /* The system configuration may name link-local servers, resolving their
+   * interface needs the socket functions */
+  ares_set_socket_functions_def(channel);
+
   /* Initialize configuration by each of the four sources, from highest
    * precedence to lowest.
    */
@@ -346,8 +350,6 @@ int ares_init_options(ares_channel_t           **channelptr,
                    ares_strerror(status)));
     goto done;
   }
-
-  ares_set_socket_functions_def(channel);
 
   /* Initialize the event thread */
   if (channel->optmask & ARES_OPT_EVENT_THREAD) {
